@@ -8,7 +8,7 @@ CONSTANTS
   ModeSet = {"sock"}
   UseVcSet = {FALSE, TRUE}
   TcpOnlySet <- MCT_TcpOnly
-  TmoSet = {40, 500}
+  TmoSet = {40}
   Est = 30
   Outs = {"Data", "NX", "SF", "REF", "FE", "TC", "Err"}
   TcpOuts = {"Data", "NX", "SF", "TC", "Err"}
